@@ -58,7 +58,24 @@ func Bytes(t *rapid.T, n int, label string) []byte {
 // Bool draws a flag.
 func Bool(t *rapid.T, label string) bool { return rapid.Bool().Draw(t, label) }
 
-// Chance is true with probability about pct/100.
+// Chance is true with probability about pct/100. rapid's integer generators are strongly biased towards small
+// values (IntRange(0,99) < 8 holds 40% of the time), so the decision is assembled from fair boolean draws.
 func Chance(t *rapid.T, pct int, label string) bool {
-	return rapid.IntRange(0, 99).Draw(t, label) < pct
+	return Uniform(t, 64, label) < (pct*64+50)/100
+}
+
+// Uniform draws a (nearly) uniform value in [0,n) for small n from fair boolean draws.
+func Uniform(t *rapid.T, n int, label string) int {
+	bits := 3
+	for 1<<uint(bits-3) < n {
+		bits++
+	}
+	v := 0
+	for i := 0; i < bits; i++ {
+		v <<= 1
+		if rapid.Bool().Draw(t, label) {
+			v |= 1
+		}
+	}
+	return v % n
 }
